@@ -573,6 +573,9 @@ class Folder:
                 raise Undecidable(f"identity comparison {norm(node)}")
             r = a is b
             return r if isinstance(op, ast.Is) else not r
+        if isinstance(op, (ast.Eq, ast.NotEq)) and isinstance(a, Rec) and (a.cls, "__eq__") in self.ctors:
+            r = bool(self.ctors[(a.cls, "__eq__")](a, [b], {}))          # the repository class defines its own equality: fold that
+            return r if isinstance(op, ast.Eq) else not r
         if isinstance(op, (ast.Eq, ast.NotEq)):
             if isinstance(a, sp.Basic) or isinstance(b, sp.Basic):
                 if isinstance(a, str) or isinstance(b, str):
@@ -752,9 +755,9 @@ class Folder:
             return out
         if fn == "round" and len(args) in (1, 2) and all(isinstance(a, (int, float)) and not isinstance(a, bool) for a in args):
             return round(*args)
-        if fn in ("math.remainder", "math.fmod") and len(args) == 2 and all(isinstance(a, (int, float)) for a in args):
+        if fn in ("math.remainder", "math.fmod") and len(args) == 2 and all(isinstance(a, (int, float)) or (isinstance(a, sp.Basic) and a.is_number and a.is_real) for a in args):
             import math as _m
-            return getattr(_m, fn.split(".")[1])(*args)
+            return getattr(_m, fn.split(".")[1])(*[float(a) for a in args])
         if fn in ("next", "iter") and not kwargs:
             try:
                 return {"next": next, "iter": iter}[fn](*args)
